@@ -68,6 +68,11 @@ where
         self.yielded_counter.fetch_and_add(num_yielded)
     }
 
+    #[inline(always)]
+    pub(crate) fn mark_completed(&self) {
+        self.completed.store(true, atomic::Ordering::SeqCst);
+    }
+
     /// Returns a guard to be held while the wrapped iterator is used by the ticket holder, and to be defused afterwards.
     /// If the wrapped iterator panics, the yielded counter will never be advanced by this ticket;
     /// the guard is then dropped by the unwinding and marks the iteration as completed,
